@@ -34,9 +34,10 @@ Theorem C02_fold_bin :
 Proof. intros o a b v H. cbn [den]. apply fold_bin_sound. exact H. Qed.
 
 (* folding anywhere inside an expression, statement or program preserves its
-   type and its behaviour (also when some other node failed to fold) *)
+   type and its behaviour (also when some other node failed to fold; [keep]:
+   whether the node is itself a block's condition and therefore left alone) *)
 Theorem C02_fold_expr :
-  forall t : tree F, den' (fst (fold_tree (fold_bin fo) t)) = den' t.
+  forall (keep : bool) (t : tree F), den' (fst (fold_tree (fold_bin fo) keep t)) = den' t.
 Proof. exact (fold_expr_preserves fo st leaf_sem node_sem nowalk_sem other_bin other_int other_float). Qed.
 
 (* a program accepted by the optimiser processes every sequence of lines from
@@ -54,23 +55,22 @@ Theorem C02_reject_only_zero_bin :
     fold_bin fo o a b = None <-> is_divmod o = true /\ lit_is_zero fo b = true.
 Proof. exact (fold_bin_none fo). Qed.
 
-(* opt.Optimise fails exactly when the program contains a `/` or `%` with
-   constant operands whose divisor's constant is zero *)
+(* opt.Optimise fails exactly when the program contains a `/` or `%` (not
+   itself a block's condition) with constant operands whose divisor's constant
+   is zero *)
 Theorem C02_reject_only_zero :
-  forall p : tree F, fold_prog (fold_bin fo) p = None <-> zero_div fo p.
+  forall p : tree F, fold_prog (fold_bin fo) p = None <-> zero_div fo false p.
 Proof. exact (fold_prog_none_iff fo). Qed.
 
-(* The checker has two rules that can tell a literal from a BinaryExpr.
-   FULL STATEMENT (false of the unchanged code, see C02_const_cond_refuted):
-     shape' p = true -> shape' (fst (fold_tree (fold_bin fo) p)) = false ->
-     has_izd (fst (fold_tree (fold_bin fo) p)) = true
-   i.e. a program the checker accepts unfolded is refused after folding only
-   because of a `/` or `%` by the literal Int 0.  Proved: ... or the program
-   has a condition that is a constant arithmetic expression. *)
-Theorem C02_accept_partial :
+(* The checker has two rules that can tell a literal from a BinaryExpr (a
+   condition must not be a bare literal; `/` or `%` by the literal Int 0).  A
+   program that passes them unfolded and fails them folded fails only because
+   of a `/` or `%` by the literal Int 0 in the folded program: the optimised
+   compile rejects a program only for a division or modulus by a literal zero. *)
+Theorem C02_accept :
   forall p : tree F,
-    shape' p = true -> shape' (fst (fold_tree (fold_bin fo) p)) = false ->
-    has_izd (fst (fold_tree (fold_bin fo) p)) = true \/ has_const_cond fo p = true.
+    shape' p = true -> shape' (fst (fold_tree (fold_bin fo) false p)) = false ->
+    has_izd (fst (fold_tree (fold_bin fo) false p)) = true.
 Proof. exact (shape_after_fold fo st leaf_sem node_sem nowalk_sem other_bin other_int other_float). Qed.
 
 End C02.
@@ -95,16 +95,18 @@ Proof.
   - intros s. vm_compute. intros E. discriminate E.
 Qed.
 
-(* a condition that is a constant arithmetic expression: accepted by the
-   checker's shape rule unfolded, refused folded, and there is no division *)
-Theorem C02_const_cond_refuted :
+(* the folder before the second repair (a condition folded like any other
+   node): `1 + 1 { ... }` passes the checker's shape rules unfolded, is refused
+   folded, and there is no division anywhere; the repaired folder keeps it *)
+Theorem C02_const_cond_old_refuted :
   exists p : tree SpecFloat.spec_float,
     let fo := spec_fops tabs_7_mod_2 in
     let sh := shape_ok fo unit (fun _ => (TyOther 0, fun s => (RErr, s))) (fun _ _ => (TyOther 0, fun s => (RErr, s)))
                 (fun _ d => d) (fun _ l _ => l) (fun _ => None) (fun _ => None) in
-    sh p = true /\ fold_prog (fold_bin fo) p <> None /\
-    sh (fst (fold_tree (fold_bin fo) p)) = false /\
-    has_izd (fst (fold_tree (fold_bin fo) p)) = false.
+    sh p = true /\ fold_prog_old (fold_bin fo) p <> None /\
+    sh (fst (fold_tree_old (fold_bin fo) p)) = false /\
+    has_izd (fst (fold_tree_old (fold_bin fo) p)) = false /\
+    sh (fst (fold_tree (fold_bin fo) false p)) = true.
 Proof.
   exists (TNode cond_tag (TCons (TBin Add (TLit (LInt 1%Z)) (TLit (LInt 1%Z))) (TCons (TLeaf 3) TNil))).
   vm_compute. repeat split; discriminate.
@@ -130,8 +132,8 @@ Print Assumptions C02_fold_expr.
 Print Assumptions C02_fold_prog.
 Print Assumptions C02_reject_only_zero_bin.
 Print Assumptions C02_reject_only_zero.
-Print Assumptions C02_accept_partial.
+Print Assumptions C02_accept.
 Print Assumptions C02_old_table_refuted.
-Print Assumptions C02_const_cond_refuted.
+Print Assumptions C02_const_cond_old_refuted.
 Print Assumptions C02_fold_7_mod_2.
 Print Assumptions C02_fold_prog_nontrivial.
